@@ -626,6 +626,20 @@ def find_closures(text):
     return toks, res
 
 
+def _split_params(ts):
+    """the depth-0 comma separated parameter patterns of a closure head (normalised)"""
+    parts, cur, depth = [], [], 0
+    for t in ts:
+        if t.kind == 'punct' and t.text in '([{<': depth += 1
+        elif t.kind == 'punct' and t.text in ')]}>': depth -= 1
+        if t.kind == 'punct' and t.text == ',' and depth == 0:
+            parts.append(norm(''.join(x.text for x in cur))); cur = []
+        else:
+            cur.append(t)
+    parts.append(norm(''.join(x.text for x in cur)))
+    return parts
+
+
 def splice_closures(text, closure_specs):
     """R5: replace the head of closure k (`|args|`) by an annotated head; body unchanged.
     The body is wrapped in braces if it is a bare expression (Verus requires a block after `ensures`)."""
@@ -645,13 +659,13 @@ def splice_closures(text, closure_specs):
             orig_pat = norm(''.join(t.text for t in toks[b1 + 1:b2]))
             for b in binds:
                 m = re.match(r'let\s+(.*?)\s*=\s*\w+\s*;$', b)
-                if not m or norm(m.group(1)) != orig_pat:
+                if not m or norm(m.group(1)) not in _split_params(toks[b1 + 1:b2]):
                     raise Undecided('splice: closure %d parameter pattern %r does not match //@bind %r' % (k, orig_pat, b))
         if toks[nx].text == '{' and not binds:
-            edits.append((b1, b2, head.strip() + ' ', None))
+            edits.append((b1, b2, head.strip() + '\n', None))
         elif toks[nx].text == '{':
             j = match_close(toks, nx)
-            edits.append((b1, b2, head.strip() + ' { ' + ' '.join(binds) + ' ', j + 1))
+            edits.append((b1, b2, head.strip() + '\n{ ' + ' '.join(binds) + ' ', j + 1))
         else:
             # bare-expression body: ends at the ',' or ')' at depth 0
             j, depth = nx, 0
@@ -665,7 +679,7 @@ def splice_closures(text, closure_specs):
                     elif x.text == ',' and depth == 0:
                         break
                 j += 1
-            edits.append((b1, b2, head.strip() + ' { ' + ' '.join(binds) + ' ', j))
+            edits.append((b1, b2, head.strip() + '\n{ ' + ' '.join(binds) + ' ', j))
     out = []
     closes = {e[3]: True for e in edits if e[3] is not None}
     skip_to = -1
@@ -729,3 +743,58 @@ def name_return(sig, ret_name):
     ty = ''.join(t.text for t in toks[arrow + 2:end]).strip()
     post = ''.join(t.text for t in toks[end:])
     return '%s (%s: %s)%s' % (pre, ret_name, ty, ('\n' + post) if post.strip() else '')
+
+
+def sig_params(sig):
+    """(fn name, [parameter names]) of a signature: used to check a re-typed signature (R17) against the real one"""
+    toks = [t for t in lex(sig) if t.kind not in ('ws', 'comment')]
+    k = 0
+    while k < len(toks) and not (toks[k].kind == 'ident' and toks[k].text == 'fn'):
+        k += 1
+    name = toks[k + 1].text
+    k += 2
+    depth = 0
+    if toks[k].text == '<':
+        while True:
+            if toks[k].text == '<': depth += 1
+            elif toks[k].text == '>' and toks[k - 1].text != '-': depth -= 1
+            k += 1
+            if depth == 0: break
+    assert toks[k].text == '(', toks[k].text
+    j = match_close(toks, k)
+    names, depth, cur_first = [], 0, True
+    i = k + 1
+    while i < j:
+        t = toks[i]
+        if t.text in '([{<': depth += 1
+        elif t.text in ')]}>' and not (t.text == '>' and toks[i - 1].text == '-'): depth -= 1
+        elif t.text == ',' and depth == 0: cur_first = True; i += 1; continue
+        if cur_first and t.kind == 'ident' and t.text not in ('mut', 'ref'):
+            names.append(t.text); cur_first = False
+        elif cur_first and t.text in ('&',):
+            pass
+        i += 1
+    return (name, names)
+
+
+def r18_stage(body, name, before, proof, fn_name):
+    """R18: a body that is ONE method-chain expression `{ E.m(..) }` becomes `{ let name = E; <proof> name.m(..) }` where `.m(` is the
+    last depth-0 occurrence of `before`. Pure let-introduction (evaluation order unchanged); refuses bodies with statements before it."""
+    toks = lex(body)
+    code = [i for i, t in enumerate(toks) if t.kind not in ('ws', 'comment')]
+    assert toks[code[0]].text == '{'
+    want = [t.text for t in lex(before) if t.kind not in ('ws', 'comment')]
+    depth, hit = 0, None
+    for ci in range(1, len(code) - 1):
+        t = toks[code[ci]]
+        if depth == 0 and [toks[code[ci + d]].text for d in range(len(want)) if ci + d < len(code)] == want:
+            hit = ci
+        if t.kind == 'punct' and t.text in '([{': depth += 1
+        elif t.kind == 'punct' and t.text in ')]}': depth -= 1
+        elif t.kind == 'punct' and t.text == ';' and depth == 0:
+            raise Undecided('fn %s: R18 stage needs a body that is a single expression' % fn_name)
+    if hit is None:
+        raise Undecided('fn %s: R18 stage anchor %r lost' % (fn_name, before))
+    pos = toks[code[hit]].start
+    open_end = toks[code[0]].end
+    return body[:open_end] + '\nlet %s = %s;\n%s\n%s' % (name, body[open_end:pos].strip(), proof, name) + body[pos:]
